@@ -8,10 +8,11 @@ Driver of C15: runs `Model/Cache.lean` on the history blocks written by harness/
   ins <q> <t> err <kind>
   get <q> <t>
   clear | clearq <q>
-  cclookup <q> <result as for ins>  caching-client step at instant 0: `hit` if served from the
-                                    cache, else `miss` and the upstream result is inserted
+  cclookup <q> <result as for ins>  caching-client step (each one 1 ns after the last): `hit` if served
+                                    from the cache, else `miss` and the upstream result is inserted
+                                    (`neg` = a response message with that rcode and SOA, MINIMUM 60)
   end
-  negttl <soa_ttl|-> <minimum> <rcode>   negative TTL of a response (outside blocks)
+  fromresp <rcode> <tc> <ans> <match> <soa_ttl|-> <minimum>   `DnsError::from_response` (outside blocks)
   realtime <ms>                     implementation-only line
   q = <id>[u]/<type>   (`u`: the harness uses an upper-case spelling of the same name)
 -/
@@ -24,6 +25,8 @@ open HickoryVerif HickoryVerif.Drv HickoryVerif.Cache
 structure State where
   cfg : TtlConfig := {}
   st : Cache.State := []
+  /-- caching-client blocks run on the real clock: every step happens strictly later than the last -/
+  ccTime : Nat := 0
 
 def init : State := {}
 
@@ -153,13 +156,27 @@ def handle (s : State) (toks : List String) : Option (State × String) :=
     pure ({ s with st := Cache.clearQuery s.st q }, "ok")
   | "cclookup" :: q :: res => do
     let q ← parseQuery q; let r ← parseRes res
-    match Cache.get s.st q 0 with
+    let now := s.ccTime + 1
+    let s := { s with ccTime := now }
+    match Cache.get s.st q now with
     | some _ => pure (s, "hit")
-    | none => pure ((doIns s q r 0).1, "miss")
-  | ["negttl", soaTtl, minimum, _rcode] => do
-    -- `DnsResponse::negative_ttl`: first SOA of the authority section, `ttl.min(soa.minimum)`
-    let t ← optNat soaTtl; let m ← minimum.toNat?
-    pure (s, "neg " ++ showOptNat (t.map fun t => if t ≤ m then t else m))
+    | none =>
+      -- the upstream answers with a response message: `DnsError::from_response` decides what it is
+      let r := match r with
+        | .neg n => match fromResponse { rcode := n.rcode, soa := n.soa.map fun x => (x.ttl, 60) } with
+          | .noRecords nt => Res.neg { n with negTtl := nt }
+          | .rcodeErr c => Res.other c
+          | .ok => Res.other 0
+        | r => r
+      pure ((doIns s q r now).1, "miss")
+  | ["fromresp", rc, tc, ans, mt, soaTtl, minimum] => do
+    let rc ← rc.toNat?; let t ← optNat soaTtl; let m ← minimum.toNat?
+    let r : Resp := { rcode := rc, truncated := tc == "1", answersNonEmpty := ans == "1",
+                      matchAnywhere := mt == "1", soa := t.map fun t => (t, m) }
+    pure (s, match fromResponse r with
+      | .ok => "ok"
+      | .noRecords nt => "neg " ++ showOptNat nt
+      | .rcodeErr c => s!"err {c}")
   | ["realtime", _] => pure (s, "~")
   | _ => none
 
